@@ -40,6 +40,14 @@ impl Vm {
                         self.ip,
                         self.acc.clone(),
                     ));
+                    // A failed evaluation is abandoned: unwind to the state a
+                    // top-level evaluation starts from, so that later evaluations
+                    // (and their stack traces) see nothing of it.
+                    *self.stack.get_sp_mut() = 0;
+                    self.stack.clear();
+                    self.bp = 0;
+                    self.ep = usize::MAX;
+                    self.acc = VCell::Undefined;
                     return Err(e);
                 }
             }
